@@ -1038,6 +1038,10 @@ def discharge(prog, body, s):
             iv = refined_interval(prog, body, s.bb, t.args[1])
             if K is not None and iv is not None and iv[1] <= K:
                 return 'split point %s within length %d' % (iv, K)
+            # split_at(n - k) / split_at(n) on a Vec that `read_to_end` appended n bytes to (and whose length was not reduced since): n <= len
+            r_ = _split_within_appended(body, s.bb, t)
+            if r_:
+                return r_
             # split_at(K - a) on x, on a path where K <= a + len(x) was established (the other case left): K - a <= len(x)
             sp = _cval(canon(body, t.args[1]))
             sl = sym_len(body, t.args[0])
@@ -1070,8 +1074,128 @@ def discharge(prog, body, s):
                 v = const_eval(body, e[2].args[0])
                 if v:
                     return 'NonZero::new(%d)' % v
+            if e[0] == 'call' and e[2].cmethod in ('get', 'remove', 'get_mut') and 'HashMap' in e[2].cdef and len(e[2].args) == 2:
+                r = _paired_map_lookup(body, e[1], e[2])
+                if r:
+                    return r
         return None
     return None
+
+
+LEN_NEUTRAL = ('deref', 'deref_mut', 'as_slice', 'as_mut_slice', 'as_ref', 'as_mut', 'index', 'index_mut', 'iter', 'iter_mut', 'len', 'is_empty', 'as_ptr', 'as_mut_ptr',
+               'split_at', 'split_at_mut', 'borrow', 'borrow_mut', 'first', 'last', 'get', 'get_mut', 'copy_from_slice', 'fill', 'capacity', 'reserve', 'chunks', 'chunks_mut')
+
+
+def _split_within_appended(body, site_bb, t):
+    """the split point is `n` or `n - const`, n being the Ok payload of a `read_to_end(_, &mut V)` that dominates the site, the slice split is V itself
+    (deref / as_mut_slice of it), and no call between can shorten V: len(V) >= n >= split point (the subtraction has its own site)"""
+    if len(t.args) < 2 or t.args[0].place is None or t.args[1].place is None:
+        return None
+    op = t.args[0]
+    for _ in range(4):
+        e0 = deref_expr(body, expr_of(body, op))
+        if e0[0] == 'call' and e0[2].cmethod in ('deref', 'deref_mut', 'as_slice', 'as_mut_slice', 'as_mut', 'as_ref') and e0[2].args and e0[2].args[0].place is not None:
+            op = e0[2].args[0]
+        else:
+            break
+    vs = [l for l in origins(body, [op.place[0]], through_calls=False).locals if body.lty(l).startswith('std::vec::Vec<') and
+          any(d[2] == 'call' and d[3].cmethod in ('new', 'with_capacity', 'default') for d in body.defs.get(l, []))]
+    if len(vs) != 1:
+        return None
+    V = vs[0]
+    e = expr_of(body, t.args[1])
+    if e[0] == 'binop' and e[1].startswith('Sub') and e[3][0] == 'const':
+        e = e[2]
+    if e[0] != 'place' or any(p[0] not in ('down', 'f') for p in e[1][1]):
+        return None
+    n = e[1][0]      # the count itself, or the ControlFlow / Result it is the payload of
+    rte = [b for b in body.calls() if b.term.cmethod == 'read_to_end' and b.term.ctrait == 'std::io::Read' and len(b.term.args) == 2 and b.term.args[1].place is not None and
+           V in origins(body, [b.term.args[1].place[0]], through_calls=False).locals and body.dominates(b.idx, site_bb)]
+    if len(rte) != 1:
+        return None
+    R = rte[0]
+    if not must_derive(body, n, lambda k, ob, bb: k == 'call' and bb == R.idx, extra_transparent=('branch',)):
+        return None
+    for b in body.calls():
+        tt = b.term
+        if b.idx in (R.idx, site_bb) or tt.cmethod in LEN_NEUTRAL or not tt.args:
+            continue
+        for a in tt.args:
+            if a.place is None:
+                continue
+            o = origins(body, [a.place[0]], through_calls=False)
+            if V in o.locals and a.place[0] != V or (a.place[0] == V):
+                # a call that receives (a reference to) V: harmless only when it happens after the site on every path
+                if not body.dominates(site_bb, b.idx) and b.idx in body.reachable(R.idx) and site_bb in body.reachable(b.idx):
+                    return None
+    return 'split point is (at most) the count read_to_end appended to %s' % body.lname(V)
+
+
+def _map_owner(body, op):
+    if op.place is None:
+        return None
+    ls = [l for l in origins(body, [op.place[0]], through_calls=False).locals if body.lty(l).startswith('std::collections::HashMap<') and l > body.arg_count]
+    return ls[0] if len(ls) == 1 else None
+
+
+def _paired_map_lookup(body, site_bb, look):
+    """`M2.get(k) / M2.remove(k)` cannot miss when k runs over the keys of another map M1 of the same function, every insertion into M1 is dominated by an
+    insertion of the same key into M2, and nothing is ever taken out of M2 except by this very lookup (each key of M1 is met once). Both maps are
+    locals created in the function."""
+    m2 = _map_owner(body, look.args[0])
+    if m2 is None or look.args[1].place is None:
+        return None
+    ko = origins(body, [look.args[1].place[0]])
+    nexts = [c for c in ko.calls if body.blocks[c].term.cmethod == 'next' and body.blocks[c].term.ctrait == 'std::iter::Iterator']
+    if len(nexts) != 1:
+        return None
+    it = body.blocks[nexts[0]].term
+    if not it.args or it.args[0].place is None:
+        return None
+    io_ = origins(body, [it.args[0].place[0]])
+    m1s = [l for l in io_.locals if body.lty(l).startswith('std::collections::HashMap<') and l > body.arg_count and l != m2 and
+           any(d[2] == 'call' and d[3].cmethod in ('new', 'default', 'with_capacity') for d in body.defs.get(l, []))]      # (moved copies of the map aside)
+    if len(m1s) != 1:
+        return None
+    m1 = m1s[0]
+    # the key type of the two maps is the same integer type
+    k1 = body.lty(m1).split('<', 1)[1].split(',')[0]
+    k2 = body.lty(m2).split('<', 1)[1].split(',')[0]
+    if k1 != k2 or type_range(k1) is None:
+        return None
+    for l in (m1, m2):
+        if not any(d[2] == 'call' and d[3].cmethod in ('new', 'default', 'with_capacity') for d in body.defs.get(l, [])):
+            return None
+    ins = {m1: [], m2: []}
+    for b in body.calls():
+        t = b.term
+        if 'HashMap' not in t.cdef or not t.args:
+            continue
+        ow = _map_owner(body, t.args[0])
+        if ow not in (m1, m2):
+            continue
+        if t.cmethod == 'insert':
+            ins[ow].append(b)
+        elif ow == m2 and t.cmethod in ('remove', 'clear', 'drain', 'retain', 'remove_entry', 'extract_if') and b.idx != site_bb:
+            return None
+        elif ow == m2 and t.cmethod in ('entry', 'iter_mut', 'values_mut'):
+            return None
+        elif ow == m1 and t.cmethod in ('entry', 'extend'):
+            return None
+    if not ins[m1] or not ins[m2]:
+        return None
+
+    def key_root(t):
+        a = t.args[1]
+        if a.place is None:
+            return None
+        o = origins(body, [a.place[0]], through_calls=False)
+        return frozenset(o.locals)
+    for i1 in ins[m1]:
+        r1 = key_root(i1.term)
+        if not r1 or not any(body.dominates(i2.idx, i1.idx) and key_root(i2.term) and (key_root(i2.term) & r1) for i2 in ins[m2]):
+            return None
+    return 'key runs over %s, whose every insertion is dominated by an insertion of the same key into %s, from which nothing else is removed' % (body.lname(m1), body.lname(m2))
 
 
 # ------------------------------------------------------------------ taint
@@ -1351,6 +1475,21 @@ def vec_len_ub(prog, body, local, use_bb):
                 if iv is not None:
                     ub = iv[1] if ub is None else min(ub, iv[1])
                     why.append('truncate(<=%d)' % iv[1])
+                # truncate(head.len()) with (head, tail) = v.split_last_chunk::<N>(): the new length is the old one minus N
+                if ub is not None:
+                    from .core import deref_expr
+                    e_ = expr_of(body, t.args[1])
+                    if e_[0] == 'call' and e_[2].cmethod == 'len' and e_[2].args:
+                        a_ = deref_expr(body, expr_of(body, e_[2].args[0]))
+                        if a_[0] == 'place' and [p[1] for p in a_[1][1] if p[0] == 'f'] == [0, 0]:
+                            d_ = whole_def(a_[1][0])
+                            mN = re.search(r'split_last_chunk(?:_mut)?::<(\d+)>', d_[3].cargs) if d_ is not None and d_[2] == 'call' else None
+                            if mN and d_[3].args and d_[3].args[0].place is not None and \
+                                    set(chain) & {l_ for l_ in origins(body, [d_[3].args[0].place[0]]).locals} and body.dominates(d_[0], bb) and \
+                                    not [1 for (b2_, t2_) in ops if b2_ not in (bb, d_[0]) and t2_.cmethod not in VEC_NEUTRAL and body.dominates(d_[0], b2_) and bb in body.reachable(b2_)]:
+                                # (no growth of the vector between the split and the truncate: the borrow of the halves is still alive at `len`)
+                                ub = max(0, ub - int(mN.group(1)))
+                                why.append('truncate(len - %s)' % mN.group(1))
             continue
         if ub is None and m != 'resize':
             continue      # still unknown: growth of an unknown length stays unknown
